@@ -25,7 +25,9 @@ CLAUSES = {
     "C05": ({"C05", "C04:OutcomePreserved"}, set()),        # (the clause that compares a run with its prescribed outcome)
     "C06": ({"C06"}, {"C02", "C03", "C09:NothingAfterTerminal"}),
     "C09": ({"C09"}, set()),
-    "C11": ({"C11", "C09:HistAgreesWithRecord"}, set()),    # "the last history event reports the same status": shared with C09
+    # "the last history event reports the same status" is shared with C09; "each status change is published exactly once":
+    # a status announced twice (or a second terminal status) breaks the RUNNING.(SUCCEEDED|FAILED) sequence shared with C02
+    "C11": ({"C11", "C09:HistAgreesWithRecord", "C02:NotifSeqOK"}, set()),
 }
 
 
@@ -139,7 +141,7 @@ def scenario_set(prop, thorough):
 
 
 MODEL_QUICK = {"task-chain", "par-task-end", "map-task-mc1", "nested", "par-fail-unhandled", "par-fail-catch", "par-fail-retry", "par-inner-catch",
-               "par-tt", "map-3-mc2", "nest-par-map", "express-par", "two-execs"}
+               "par-tt", "map-3-mc2", "nest-par-map", "express-par", "two-execs", "choice-routes", "par-choice-nomatch", "map-choice"}
 
 
 def model_stage(scns, thorough, on_run, work, prop=""):
